@@ -25,3 +25,36 @@ def run(prog, chk, tier):
     # lookups expose exactly what iteration exposes: they are first-match searches over iter_attributes() and nothing else
     from rules.c02 import lookups
     lookups(prog, chk)
+    only_next(prog, chk)
+
+
+HARMLESS_ITERATOR_ITEMS = {"next", "size_hint"}      # size_hint hands out no attribute
+
+
+def only_next(prog, chk):
+    """every way of getting an attribute out of the iterator goes through `next`: the Iterator impl overrides no other method
+    (std's provided nth / fold / skip / find ... are all written on top of next), and no other workspace impl or inherent method of
+    the iterator type hands out attributes.  An overridden method would be a second exposure path the transducer never saw."""
+    n = 0
+    for i in prog.impls:
+        if "MessageAttributesIter" not in i["self_s"] or i["crate"] != "stun_types":
+            continue
+        if i["trait"] == "std::iter::Iterator":
+            n += 1
+            extra = sorted(set(i["items"]) - HARMLESS_ITERATOR_ITEMS)
+            chk.ob("exposure-paths", "MessageAttributesIter: Iterator overrides nothing besides next (every adaptor runs on next)", not extra,
+                   where=prog.bodies[i["items"]["next"]].loc() if i["items"].get("next") in prog.bodies else None,
+                   detail="overridden: %s - not decided by the exposure rule" % ", ".join(extra), how="impl table")
+        elif i["trait"] in ("std::iter::DoubleEndedIterator", "std::iter::ExactSizeIterator", "std::iter::FusedIterator") or i["trait"].startswith("std::iter::"):
+            ok = i["trait"] == "std::iter::FusedIterator"
+            chk.ob("exposure-paths", "MessageAttributesIter implements %s" % i["trait"], ok, detail="a second way of stepping through the attributes", how="impl table")
+    chk.floor("iterator-impls", n, 1)
+    # inherent methods of the iterator returning attributes
+    inh = [k for k in prog.bodies if k.startswith("stun_types::message::MessageAttributesIter::") and not prog.bodies[k].mono]
+    bad = []
+    for k in inh:
+        b = prog.bodies[k]
+        rt = b.locals[0]["ty"]
+        if "RawAttribute" in str(b.ty(rt).get("s", "")):
+            bad.append(k.rsplit("::", 1)[-1])
+    chk.ob("exposure-paths", "MessageAttributesIter has no inherent method handing out attributes", not bad, detail=", ".join(bad), how="body table")
